@@ -20,12 +20,19 @@
     of the address are below 2^31 (as in C05) — `InScope`.
   * "invokes a port's callback": an entry of the callback log that `dispatch` returns
     (`Call`: who, the `msg` pointer, `d.loc`, `d.obj`, `d.port` as the callback sees them).
-    Callbacks of ports with a sub-table behave like `rRecurCb`.
+    Callbacks of ports with a sub-table behave like `rRecurCb`; for `rRecurpCb` / `rRecursCb` /
+    `rRecurspCb` (ports `name#N/`: which array element is handed down) see
+    `sugar_obj_handed_down`.
   * "its address matches that port's path at every level of the tree and its type tags
     are admitted": `AnswersRoot` (Ports/Spec.lean), built level by level from C05's
-    `PathSpec` and the type rule of C05 (`TypesAdmit`).  The default handler of a reached
-    table in which no port admits the message counts as a callback (the quantifier
-    includes tables with default handler).
+    `PathSpec` and the type rule of C05 (`TypesAdmit`: what the type matcher really does,
+    `types_exact` of C05).  The default handler of a reached table in which no port admits
+    the message counts as a callback (the quantifier includes tables with default handler).
+    Independently of that rule the statement is also given in MUST / MAY / MUSTNOT form
+    (`MustAnswer`, `MayAnswer`, Proofs/PortsExtSandwich.lean), built from C05's two-sided
+    statement only: a type string that is one of the listed alternatives MUST match, one
+    that does not even extend a listed alternative MUST NOT (`dispatch_must_mustnot`,
+    `dispatch_sandwich`).
   * "the table-lookup strategy the library picked": `mk`, the function that builds the
     lookup tables of a table from its names.  Everything is proved for every `mk` whose
     results satisfy `HashOK` when they are used at all (`MkOK`); `refreshMagic` with
@@ -38,6 +45,9 @@
 import RtoscModel.Proofs.PortsRoot
 import RtoscModel.Proofs.PortsBuild
 import RtoscModel.Proofs.PortsObj
+import RtoscModel.Proofs.PortsExtSandwich
+import RtoscModel.Proofs.PortsExtLoc
+import RtoscModel.Proofs.PortsExtSugar
 namespace Rtosc.Ports
 open Rtosc Rtosc.Match Rtosc.Ports.Hash
 
@@ -286,6 +296,38 @@ theorem loc_full_address {mk : List Bytes → Option Matcher} (hmk : MkOK mk) {P
       exact semLoc_loc _ _ _ _ _ _ _ _ _ _ hloc
     · simp [dfltCallOf]
 
+/-- **loc_full_address_exact** ("the callback sees the full address in it", at the strength of the
+    sentence): every log entry names a port of the tree (`PPorts.portAt`: the port with that path of
+    table indices), and for that port's own name `p`: `loc = pre ++ mid`, the message pointer the
+    callback is handed is `mid ++ rest` (the invariant of ports.h: "d.loc + m make the port's full
+    path"), `pre ++ mid ++ rest` is "/" ++ address, and `mid` is exactly what the name accounts for
+    (`Accounts`: `mid ++ rest` spells the segments of `p` — literal text, at `#N` the whole run of
+    digits, below N — and what is left is "/" ++ rest for a name with trailing '/', nothing for a name
+    without).  Hence the callback of a port without trailing '/' sees the full address
+    (second conjunct).  A default handler sees `loc ++ (address at its message pointer)` = the full
+    address.  `loc_full_address` (`LocOK`: some prefix that is everything or ends in '/') is the
+    corollary `locExact_locOK`. -/
+theorem loc_full_address_exact {mk : List Bytes → Option Matcher} (hmk : MkOK mk) {P : PPorts} {addr tags rest : Bytes}
+    (h : InScope P addr tags rest) (k : Nat) (base : Bool) (d : RtData) (L0 : Bytes)
+    (hd : d.loc = some L0) (hsz : d.locSize ≠ 0) :
+    ∃ log d', dispatch mk P.render (msgBuf addr tags k rest) d base = some (log, d') ∧
+      ∀ c ∈ log, LocExact P (rootLoc base L0 ++ rootAddr base addr) (msgTail k tags rest) c ∧
+        ∀ q p, c.who = .port q → P.portAt q = some p → p.sub = false →
+          c.loc = some (rootLoc base L0 ++ rootAddr base addr) := by
+  obtain ⟨log, d', hdisp, hlog, hd'⟩ := some_pair (dispatch_loc_sem hmk h k base d L0 hd hsz)
+  refine ⟨log, d', hdisp, ?_⟩
+  subst hlog hd'
+  intro c hc
+  have hloc := rootDataLoc_loc base d L0 hd
+  have hex : LocExact P (rootLoc base L0 ++ rootAddr base addr) (msgTail k tags rest) c := by
+    rcases mem_finLoc hc with hc | ⟨_, _, rfl⟩
+    · exact locExact_of_at (semLoc_locExact P.tab h.wf _ _ _ _ _ _ _ _ _ hloc c hc)
+    · refine ⟨rootLoc base L0, rootAddr base addr, ?_, rfl, ?_⟩
+      · simp only [dfltCallOf]
+        exact semLoc_loc _ _ _ _ _ _ _ _ _ _ hloc
+      · simp [dfltCallOf]
+  exact ⟨hex, fun q p hq hp hs => locExact_leaf_full hex hq hp hs⟩
+
 /-- **matches_eq_leaf_callbacks**: after a root dispatch `d.matches` is the number of
     leaf callbacks invoked (callbacks of ports without sub-table, and default handlers);
     without `base_dispatch` it has grown by that number. -/
@@ -479,8 +521,8 @@ theorem merge_no_repeats (parts : List (List Entry)) :
 /-- **recurs_index**: the element `rRecursCb` / `rRecurspCb` hand down (`&obj->name[idx]`,
     `rBOILS_BEGIN`) for a port `lit#N…` and a message spelling `lit`, a run of digits and then
     a non-digit is the value of that run — the index the address spells for the `#N`.
-    (Partial: the hand-down of that element through `Ports::dispatch` is compared with the
-    code on the `R` lines, it is not part of the `dispatch` model — see `obj_handed_down`.) -/
+    (One name, one level; the hand-down of that element through a whole `Ports::dispatch` is
+    `sugar_obj_handed_down` below.) -/
 theorem recurs_index (lit rest ds tail : Bytes) (c : UInt8)
     (hlit : ∀ x ∈ lit, x ≠ 35) (hds : ∀ x ∈ ds, isDigit x = true) (hc : isDigit c = false) :
     Sugar.recursIdx (lit ++ 35 :: rest) (lit ++ (ds ++ c :: tail)) = some (decVal ds) :=
@@ -489,6 +531,173 @@ theorem recurs_index (lit rest ds tail : Bytes) (c : UInt8)
 example : Sugar.recursIdx [109, 105, 100, 115, 35, 52, 47] ([109, 105, 100, 115, 48, 51, 47, 120, 0]) = some 3 := by decide
 example : (mergePorts [[.leaf [97], .leaf [98]], [.leaf [98], .leaf [99]]]).map Entry.name = [[97], [98], [99]] := by decide
 example : (clonePorts [.leaf [97], .leaf [98], .leaf [99]] [[99], [97]]).map (·.map Entry.name) = some [[99], [97]] := by decide
+
+/-! ## The object handed down through the library's recursion macros
+
+`obj_handed_down` names the object a callback is handed by the path of its table: the sub-tree callback of
+the model is `rRecurCb` (`data.obj = &obj->name`).  The library has three more: `rRecurpCb` (`obj->name`, a
+pointer member), and for ports `name#N/` `rRecursCb` / `rRecurspCb`, which hand down the array element
+`&obj->name[idx]` / `obj->name[idx]` with `idx` computed from the message by `rBOILS_BEGIN`.  In the model an
+object is then the path of its table together with the element each enumerated port on the path selects
+(`Sugar.objIdx`: `rBOILS_BEGIN` on the name and the message pointer of that level, `SNIP`, next level — what
+the driver prints on the `R` lines, where it is compared with the library's own macros).  Pointer members are
+taken to be non-NULL (`rRecurpCb` returns without dispatching on NULL: not modelled). -/
+
+/-- **sugar_obj_handed_down** ("with the runtime object handed down by the parent levels", for trees whose
+    sub-tree ports are the ones `rRecur` / `rRecurp` / `rRecurs` / `rRecursp` generate — `name/` or `name#N/`,
+    no type specification: `sugarNodes`): with or without location buffer, every callback is handed the
+    object of its own table (`c.obj` is the path of its port without the last index; a default handler: the path of
+    its table), and of that object the elements which `rRecursCb` / `rRecurspCb` select level by level
+    (`Sugar.objIdx` on the message as the root table sees it) are exactly the elements the address names —
+    per sub-tree port on the way the value of the run of digits the address has where the name has its
+    `#N` (`PPorts.elems`, which knows nothing of `rBOILS_BEGIN` / `atoi` / `SNIP`) —, and each of them exists:
+    the index is below N (`ElemsInRange`: no access outside `obj->name[N]`). -/
+theorem sugar_obj_handed_down {mk : List Bytes → Option Matcher} (hmk : MkOK mk) {P : PPorts} {addr tags rest : Bytes}
+    (h : InScope P addr tags rest) (hs : P.tab.sugarNodes = true) (k : Nat) (base : Bool) (d : RtData)
+    (hd : d.Usable) (hobj : d.obj = []) :
+    ∃ log d', dispatch mk P.render (msgBuf addr tags k rest) d base = some (log, d') ∧
+      ∀ c ∈ log, ((∀ q, c.who = .port q → c.obj = q.dropLast) ∧ (∀ q, c.who = .dflt q → c.obj = q)) ∧
+        SugarObj P (rootAddr base addr) (msgTail k tags rest) c := by
+  -- without location buffer: on `semNo`
+  have hno : ∀ dn : RtData, dn.loc = none → dn.obj = [] →
+      ∃ log d', dispatch mk P.render (msgBuf addr tags k rest) dn base = some (log, d') ∧
+        ∀ c ∈ log, SugarObj P (rootAddr base addr) (msgTail k tags rest) c := by
+    intro dn hdn hobjn
+    obtain ⟨log, d', hdisp, hlog, hd'⟩ := some_pair (dispatch_noLoc mk h.wf k h.msgOK base dn hdn)
+    refine ⟨log, d', hdisp, ?_⟩
+    subst hlog hd'
+    rw [hobjn]
+    intro c hc
+    have hnul : NulFree (rootAddr base addr) := (h.msgOK.root base).a_nul
+    have hro : (rootDataNo base dn).obj = [] := by rw [rootDataNo_obj, hobjn]
+    have key : ∃ s, c.obj = [] ++ s ∧ ElemsAgree P.tab 0 (rootAddr base addr) (msgTail k tags rest) s := by
+      simp only [finNo] at hc
+      split at hc
+      · rcases List.mem_append.mp hc with hc | hc
+        · exact semNo_elems P.tab h.wf hs [] 0 _ _ _ _ _ hnul hro c hc
+        · simp only [List.mem_singleton] at hc
+          subst hc
+          refine ⟨[], ?_, elemsAgree_nil _ _ _ _⟩
+          simp only [dfltCallOf, List.append_nil]
+          exact semNo_obj _ _ _ _ _ _ _ _ _ hro
+      · exact semNo_elems P.tab h.wf hs [] 0 _ _ _ _ _ hnul hro c hc
+    obtain ⟨s, h1, es, h2, h3, h4⟩ := key
+    rw [List.nil_append] at h1
+    refine ⟨es, by rw [h1]; exact h2, ?_, h4⟩
+    rw [h1, ← objIdxFrom_eq]
+    exact h3
+  rcases hd with hd | ⟨L0, hd, hsz⟩
+  · obtain ⟨log, d', h1, h2⟩ := hno d hd hobj
+    obtain ⟨log', d'', h3, h4⟩ := obj_handed_down hmk h k base d hd hobj
+    rw [h1] at h3
+    cases h3
+    exact ⟨log, d', h1, fun c hc => ⟨⟨fun q hq => ((h4 c hc).1 q hq).2, (h4 c hc).2⟩, h2 c hc⟩⟩
+  · have hr : TwoRuns d { d with loc := none } L0 := ⟨hd, hsz, rfl, rfl, rfl⟩
+    obtain ⟨logL, dL', logN, dN', h1, h2, hv⟩ := loc_independent hmk h k base hr
+    obtain ⟨logN', dN'', h3, h4⟩ := hno { d with loc := none } rfl hobj
+    rw [h2] at h3
+    cases h3
+    obtain ⟨logL', dL'', h5, h6⟩ := port_pointer_own hmk h k base d L0 hd hsz hobj
+    rw [h1] at h5
+    cases h5
+    refine ⟨logL, dL', h1, fun c hc => ⟨⟨fun q hq => ((h6 c hc).1 q hq).2, (h6 c hc).2⟩, ?_⟩⟩
+    have hcv : c.view ∈ views logN := by rw [← hv]; exact List.mem_map.mpr ⟨c, hc, rfl⟩
+    obtain ⟨c', hc', hcc⟩ := List.mem_map.mp hcv
+    have e3 : c'.obj = c.obj := congrArg View.obj hcc
+    have := h4 c' hc'
+    unfold SugarObj at this ⊢
+    rw [e3] at this
+    exact this
+
+/-- **recurs_cb_index**: one level of the above, as a statement about the callback itself — on every message
+    that `rtosc_match`es a name `…#N…` (documented form, no type specification) `rBOILS_BEGIN` computes the
+    element the address names for the first `#N`, and that element exists (index < N); for a name without
+    '#' (`rRecurCb` / `rRecurpCb`) no element is computed. -/
+theorem recurs_cb_index {p : Pat} (hnw : nameWf p = true) (hty : p.types = none) {a tags t : Bytes}
+    (hm : matchB p a tags = some t) (ex : Bytes) :
+    (if hasChar 35 p.render then (Sugar.recursIdx p.render (a ++ 0 :: ex)).map some else some none) =
+      some ((spelledElem p.segs a).map (·.1)) ∧
+    ∀ v n, spelledElem p.segs a = some (v, n) → v < n :=
+  recursIdx_of_match hnw hty hm ex
+
+/-- the message pointer the root table sees, as the driver computes it for `Sugar.objIdx` on the `R` lines, is
+    the one `sugar_obj_handed_down` speaks about -/
+theorem sugar_root_msg {addr tags rest : Bytes} (k : Nat) (base : Bool) :
+    (if base && (msgBuf addr tags k rest).head? == some 47 then (msgBuf addr tags k rest).drop 1
+     else msgBuf addr tags k rest) = rootAddr base addr ++ 0 :: msgTail k tags rest := by
+  cases base with
+  | false => simp [rootAddr, msgBuf]
+  | true =>
+    cases addr with
+    | nil => simp [rootAddr, stripSlash, msgBuf]
+    | cons c r =>
+      by_cases hc : c = 47
+      · subst hc; simp [rootAddr, stripSlash, msgBuf]
+      · simp only [msgBuf, List.cons_append, List.head?_cons, Bool.true_and, rootAddr, ↓reduceIte]
+        have : (some c == some (47 : UInt8)) = false := by simp [hc]
+        rw [this]
+        simp only [Bool.false_eq_true, ↓reduceIte]
+        unfold stripSlash
+        split
+        · next heq => simp only [List.cons.injEq] at heq; exact absurd heq.1 hc
+        · rfl
+
+/-! ## The statement in MUST / MAY / MUSTNOT form
+
+`dispatch_linear_iff` / `dispatch_loc_iff` characterise the callback log by `AnswersRoot`, whose type rule
+`TypesAdmit` is what `rtosc_match_args` really does (C05 `types_exact`: a type string that extends the LAST
+listed alternative is admitted) — exact, but inside the region the statement leaves open it is the code's own
+behaviour.  The statement itself fixes two sides only (C05 `types_sandwich`): a type string that IS one of the
+listed alternatives must match (`SpecMatch`), one that does not even extend a listed alternative must not
+(outside `SpecMayMatch`).  `MustAnswer` / `MayAnswer` (Proofs/PortsExtSandwich.lean) lift the two sides to
+the tree: `MustAnswer` — every level on the way certainly matches, and for a default handler certainly no
+port of its table matches; `MayAnswer` — … possibly …; a callback outside `MayAnswer` MUST NOT be invoked.
+This is the form the Python oracle of the correspondence evaluates on the implementation's output. -/
+
+/-- with or without location buffer: the log is `AnswersRoot` (`dispatch_linear_iff` and `dispatch_loc_iff`
+    in one statement) -/
+theorem dispatch_iff {mk : List Bytes → Option Matcher} (hmk : MkOK mk) {P : PPorts} {addr tags rest : Bytes}
+    (h : InScope P addr tags rest) (k : Nat) (base : Bool) (d : RtData) (hd : d.Usable) :
+    ∃ log d', dispatch mk P.render (msgBuf addr tags k rest) d base = some (log, d') ∧
+      ∀ w, w ∈ log.map (·.who) ↔ AnswersRoot P (rootAddr base addr) tags w := by
+  rcases hd with hd | ⟨L0, hd, hsz⟩
+  · exact dispatch_linear_iff mk h k base d hd
+  · exact dispatch_loc_iff hmk h k base d L0 hd hsz
+
+/-- **dispatch_must_mustnot** ("a message invokes a port's callback if and only if its address matches that
+    port's path at every level of the tree and its type tags are admitted", with "admitted" read as the
+    two-sided statement of C05 and nothing else): with or without location buffer, whichever lookup strategy —
+    every callback the message MUST invoke is in the log, and the log holds nothing the message MUST NOT
+    invoke. -/
+theorem dispatch_must_mustnot {mk : List Bytes → Option Matcher} (hmk : MkOK mk) {P : PPorts} {addr tags rest : Bytes}
+    (h : InScope P addr tags rest) (k : Nat) (base : Bool) (d : RtData) (hd : d.Usable) :
+    ∃ log d', dispatch mk P.render (msgBuf addr tags k rest) d base = some (log, d') ∧
+      (∀ w, MustAnswer P (rootAddr base addr) tags w → w ∈ log.map (·.who)) ∧
+      (∀ w, w ∈ log.map (·.who) → MayAnswer P (rootAddr base addr) tags w) := by
+  obtain ⟨log, d', h1, h2⟩ := dispatch_iff hmk h k base d hd
+  refine ⟨log, d', h1, ?_, ?_⟩
+  · intro w hw
+    exact (h2 w).mpr ((answersRoot_eq _ _ _ _).mpr (sandwiched_must_le admits_sandwiched _ _ _ _ hw))
+  · intro w hw
+    exact sandwiched_le_may admits_sandwiched _ _ _ _ ((answersRoot_eq _ _ _ _).mp ((h2 w).mp hw))
+
+/-- **dispatch_sandwich**: between the two sides the log is not arbitrary — there is ONE verdict function on
+    (name, remaining address, type string) inside the sandwich of C05 (`Sandwiched`: positive on every MUST
+    message, positive on MAY messages only) such that for every tree, every message, with or without location
+    buffer, the log is exactly what the level-by-level rule yields with that verdict: a port is invoked iff
+    the verdict on its name is positive and its parent port was invoked, a default handler iff its table was
+    reached and no port of it got a positive verdict.  (The witness is `Admits`, i.e. the model's matcher; the
+    statement does not mention it.) -/
+theorem dispatch_sandwich :
+    ∃ v : Verdict, Sandwiched v ∧
+      ∀ {mk : List Bytes → Option Matcher}, MkOK mk → ∀ {P : PPorts} {addr tags rest : Bytes},
+        InScope P addr tags rest → ∀ (k : Nat) (base : Bool) (d : RtData), d.Usable →
+        ∃ log d', dispatch mk P.render (msgBuf addr tags k rest) d base = some (log, d') ∧
+          ∀ w, w ∈ log.map (·.who) ↔ AnswersRootBy v v P (rootAddr base addr) tags w := by
+  refine ⟨Admits, admits_sandwiched, ?_⟩
+  intro mk hmk P addr tags rest h k base d hd
+  obtain ⟨log, d', h1, h2⟩ := dispatch_iff hmk h k base d hd
+  exact ⟨log, d', h1, fun w => (h2 w).trans (answersRoot_eq _ _ _ _)⟩
 
 /-! ## The driver's cache -/
 
@@ -701,5 +910,109 @@ example :
 example : ∃ pm, matcherOf realSearch f3Names = some pm ∧ pm.pos ≠ [] ∧ HashOK f3Names pm := by
   have h : matcherOf realSearch f3Names = some f3Matcher := by decide +kernel
   exact ⟨f3Matcher, h, by decide, generate_establishes_HashOK realSearch f3Names f3Matcher h (by decide)⟩
+
+/-! ### MUST / MAY / MUSTNOT -/
+
+/-- `x:i:f` with a default handler -/
+def swTree : PPorts :=
+  { dflt := true, tab := .leaf { segs := [.lit [120]], sub := false, types := some [[105], [102]] } .nil }
+
+theorem swPath : PathSpec { segs := [.lit [120]], sub := false, types := some [[105], [102]] } [120] :=
+  ⟨[], SpellsAll.lit [120] (SpellsAll.nil []), rfl⟩
+
+example : InScope swTree [47, 120] [105, 102] [0, 0, 0, 0] :=
+  { wf := by decide, addr_nul := by unfold NulFree; decide, addr_idx := idxBounded_of_check (by decide),
+    tags_nul := by unfold NulFree; decide }
+
+/-- type string "i" is listed: the port MUST be invoked -/
+example : MustAnswer swTree [120] [105] (.port [0]) := by
+  refine Or.inl (Or.inl ⟨⟨swPath, ?_⟩, rfl⟩)
+  intro ts hts; cases hts; decide
+
+/-- the two sides really differ: the type string "if" extends the first alternative — the port MAY be invoked, so
+    may the default handler, neither MUST; the code does not invoke the port; "fi" extends the last one: it does -/
+example :
+    MayAnswer swTree [120] [105, 102] (.port [0]) ∧ ¬ MustAnswer swTree [120] [105, 102] (.port [0]) ∧
+    MayAnswer swTree [120] [105, 102] (.dflt []) ∧ ¬ MustAnswer swTree [120] [105, 102] (.dflt []) ∧
+    (dispatchReal swTree.render (mkMsg [47, 120] [105, 102] [0, 0, 0, 0, 0, 0, 0, 0]) exData true).map
+      (fun r => r.1.map (·.who)) = some [.dflt []] ∧
+    (dispatchReal swTree.render (mkMsg [47, 120] [102, 105] [0, 0, 0, 0, 0, 0, 0, 0]) exData true).map
+      (fun r => r.1.map (·.who)) = some [.port [0]] := by
+  have hloose : TypesLoose { segs := [.lit [120]], sub := false, types := some [[105], [102]] } [105, 102] := by
+    intro ts hts; cases hts; exact ⟨[105], by decide, ⟨[102], rfl⟩⟩
+  have hnex : ¬ TypesExact { segs := [.lit [120]], sub := false, types := some [[105], [102]] } [105, 102] := by
+    intro h; exact absurd (h _ rfl) (by decide)
+  refine ⟨Or.inl (Or.inl ⟨⟨swPath, hloose⟩, rfl⟩), ?_, ?_, ?_, by decide +kernel, by decide +kernel⟩
+  · rintro (h | ⟨_, _, h⟩)
+    · rcases h with ⟨h, _⟩ | h
+      · exact hnex h.2
+      · exact h
+    · cases h
+  · refine Or.inr ⟨rfl, ?_, rfl⟩
+    rintro (h | h)
+    · exact hnex h.2
+    · exact h
+  · rintro (h | ⟨_, h, _⟩)
+    · rcases h with ⟨_, h⟩ | h
+      · cases h
+      · exact h
+    · exact h (Or.inl ⟨swPath, hloose⟩)
+
+/-! ### what a callback sees in `loc` -/
+
+example : exTree.portAt [1, 0] = some { segs := [.lit [99]], sub := false, types := some [[105]] } := by decide
+
+/-- the name `b#3/` accounts for "b2/" of the remaining address "b2/c" -/
+example : Accounts { segs := [.lit [98], .enum [51]], sub := true, types := none } [98, 50, 47] [99] :=
+  ⟨[47, 99],
+   SpellsAll.lit [98] (SpellsAll.enum [51] [50] (by decide) (by decide)
+     (by intro c t h; cases h; decide) (by decide) (SpellsAll.nil [47, 99])),
+   rfl⟩
+
+/-- `loc_full_address_exact` on the example tree and "/b2/c" -/
+example : ∃ log d', dispatchReal exTree.render (msgBuf exAddr [105] 2 [0, 0, 0, 0]) exData true = some (log, d') ∧
+    ∀ c ∈ log, LocExact exTree ([47] ++ [98, 50, 47, 99]) (msgTail 2 [105] [0, 0, 0, 0]) c ∧
+      ∀ q p, c.who = .port q → exTree.portAt q = some p → p.sub = false → c.loc = some ([47] ++ [98, 50, 47, 99]) :=
+  loc_full_address_exact real_MkOK exScope 2 true exData [] rfl (by decide)
+
+/-! ### the recursion macros -/
+
+/-- `mids#4/` → { `arr#3/` → { `x` }, `one/` → { `x` } }: the names that `rRecurs(mids, 4)`, `rRecurs(arr, 3)`,
+    `rRecur(one)` generate -/
+def sgTree : PPorts :=
+  { dflt := false,
+    tab :=
+      .node { segs := [.lit [109, 105, 100, 115], .enum [52]], sub := true, types := none }
+        (.node { segs := [.lit [97, 114, 114], .enum [51]], sub := true, types := none }
+           (.leaf { segs := [.lit [120]], sub := false, types := none } .nil) false <|
+         .node { segs := [.lit [111, 110, 101]], sub := true, types := none }
+           (.leaf { segs := [.lit [120]], sub := false, types := none } .nil) false .nil) false .nil }
+
+/-- "/mids2/arr01/x" -/
+def sgAddr : Bytes := [47, 109, 105, 100, 115, 50, 47, 97, 114, 114, 48, 49, 47, 120]
+/-- "/mids3/one/x" -/
+def sgAddr2 : Bytes := [47, 109, 105, 100, 115, 51, 47, 111, 110, 101, 47, 120]
+
+example : sgTree.tab.sugarNodes = true := by decide
+example : InScope sgTree sgAddr [] [0, 0, 0, 0] :=
+  { wf := by decide
+    addr_nul := by unfold NulFree sgAddr; decide
+    addr_idx := idxBounded_of_check (by decide +kernel)
+    tags_nul := by unfold NulFree; decide }
+
+/-- the leaf callback `x` is handed the object of its table — path [0,0]: element 2 of `mids`, of that element 1 of
+    `arr` ("01") — resp. path [0,1]: element 3 of `mids`, its member `one` -/
+example :
+    (dispatchReal sgTree.render (mkMsg sgAddr [] [0, 0, 0, 0]) exData true).map
+      (fun r => r.1.map (fun c => (c.who, c.obj))) =
+      some [(.port [0], []), (.port [0, 0], [0]), (.port [0, 0, 0], [0, 0])] ∧
+    Sugar.objIdx sgTree.render.tab ((mkMsg sgAddr [] [0, 0, 0, 0]).drop 1) [0, 0] = some [(0, some 2), (0, some 1)] ∧
+    sgTree.elems (rootAddr true sgAddr) [0, 0] = some [(0, some (2, 4)), (0, some (1, 3))] ∧
+    (dispatchReal sgTree.render (mkMsg sgAddr2 [] [0, 0, 0, 0]) exData true).map
+      (fun r => r.1.map (fun c => (c.who, c.obj))) =
+      some [(.port [0], []), (.port [0, 1], [0]), (.port [0, 1, 0], [0, 1])] ∧
+    Sugar.objIdx sgTree.render.tab ((mkMsg sgAddr2 [] [0, 0, 0, 0]).drop 1) [0, 1] = some [(0, some 3), (1, none)] ∧
+    sgTree.elems (rootAddr true sgAddr2) [0, 1] = some [(0, some (3, 4)), (1, none)] := by
+  refine ⟨?_, ?_, ?_, ?_, ?_, ?_⟩ <;> decide +kernel
 
 end Rtosc.Ports
